@@ -10,6 +10,7 @@ A spec is
    "workplaces": [{"name", "cap", "targets": [task idx], "inputs": [wp idx],
                    "facilities": [{"name", "skills", "cost", "solo", "absence"}]}],
    "components": [{"name", "space", "children": [comp idx], "tasks": [task idx]}],
+   "product_wire": "register-and-link" grows the product with append_child_component, parts hung under an assembly as soon as it is registered,
    "order": optional permutation of task indexes giving the order inside workflow.task_list,
    "hash": optional list of hash ranks for tasks (default: index), "chash": same for components}
 IDs are always equal to names, so nothing depends on uuid4; init_datetime is fixed.
@@ -326,10 +327,23 @@ def build(spec, plain=False):
     init_dt = INIT_DT
     if spec.get("init_tz_hours") is not None:
         init_dt = INIT_DT.replace(tzinfo=datetime.timezone(datetime.timedelta(hours=spec["init_tz_hours"])))  # a timezone-aware project start
+    if spec.get("product_wire") == "register-and-link":
+        # the product is grown step by step: each component is registered and its parts are hung under it right away (a part is registered when its own turn comes)
+        product = BaseProduct([])
+        for i, cs in enumerate(spec.get("components", [])):
+            for ch in cs.get("children", []):
+                m.components[i].child_component_list.remove(m.components[ch])  # (undo the wiring done above; it is redone in the other order)
+                m.components[ch].parent_component_list.remove(m.components[i])
+        for i, cs in enumerate(spec.get("components", [])):
+            product.append_child_component(m.components[i])
+            for ch in cs.get("children", []):
+                m.components[i].append_child_component(m.components[ch])
+    else:
+        product = BaseProduct(list(m.components))
     m.project = BaseProject(
         init_datetime=init_dt,
         unit_timedelta=datetime.timedelta(minutes=spec.get("unit_min", 1)),
-        product=BaseProduct(list(m.components)),
+        product=product,
         workflow=wf,
         organization=BaseOrganization(team_list=list(m.teams), workplace_list=list(m.workplaces)),
     )
@@ -491,10 +505,26 @@ def snap(p):
         s["workplaces"][wp.ID] = tuple(c.ID for c in wp.placed_component_list)
         for f in wp.facility_list:
             s["facilities"][f.ID] = (int(f.state), tuple(t.ID for t in f.assigned_task_list))
-    for c in p.product.component_list:
+    for c in _all_components(p):
         s["components"][c.ID] = (int(c.state), None if c.placed_workplace is None else c.placed_workplace.ID)
     s["cpl"] = p.workflow.critical_path_length
     return s
+
+
+def _all_components(p):
+    """the product's components plus every component the model reaches otherwise (a task's target, a part of an assembly): the user's components,
+    whether or not the product's own list has them all"""
+    out = list(p.product.component_list)
+    seen = set(id(c) for c in out)
+    todo = [t.target_component for t in p.workflow.task_list if t.target_component is not None] + [ch for c in out for ch in c.child_component_list]
+    while todo:
+        c = todo.pop()
+        if id(c) in seen or isinstance(c, str):
+            continue
+        seen.add(id(c))
+        out.append(c)
+        todo += list(c.child_component_list)
+    return out
 
 
 def canon(p, extra=()):
